@@ -149,6 +149,7 @@ class Sim:
         self.pct_points = ()
         self.script = []
         self.script_actors = []
+        self.procs = None            # isolate.ProcessStates: per simulated process copy of the library's module state
         self.sticky_den = 8          # "sticky": the running actor is pre-empted with probability 1/sticky_den per step
         self.locks = LockTable()
         self.outside_writes = []
@@ -218,6 +219,8 @@ class Sim:
             self.vtime += a.pending_cost                   # sequentialised: every step takes its duration
         a.pending_cost = 0.0
         a.resumed_at = self.vtime
+        if self.procs is not None:
+            self.procs.switch_to(a.attrs.get("proc", ("actor", a.id)))
         if a.state == NEW:
             a.t_start = self.step
             a.state = RUNNING
